@@ -561,7 +561,7 @@ OPS = ('OP_ADD', 'OP_SUB', 'OP_MUL', 'OP_DIV', 'CONCAT', 'OP_NEG',
 
 def op_family(spec):
     k = spec[0]
-    if k in ('npint', 'npfloat'):
+    if k in ('npint', 'npfloat', 'npint32', 'npfloat32'):
         return 'numpy'
     if k in ('bool', 'Boolean'):
         return 'bool'
